@@ -266,6 +266,8 @@ def _first_arg(cx, f, name, op, d, mk, g):
         rel = d * 1.005  # separates rtol from atol: close everywhere under (rtol=1e-2, atol=0); under (rtol=0, atol=1e-2) only where |d| <= 2
         for tk, X, kw in (("T", T, {}), ("T_near", near, {}), ("T_near,rtol", near, {"rtol": 1e-3, "atol": 0.0}), ("T_bcast", Tb, {"equal_nan": True}),
                           ("T_rel,rtol", rel, {"rtol": 1e-2, "atol": 0.0}), ("T_rel,atol", rel, {"rtol": 0.0, "atol": 1e-2}), ("T_rel,positional", rel, None)):
+            if dt != torch.float64 and tk not in ("T", "T_bcast"):
+                continue  # threshold-sensitive variants only in float64 (float32 rounding of to_dense() can flip an entry at the tolerance)
             if kw is None:
                 cx.call(e, tk, lambda: f(op, X, 1e-2, 1e-3), lambda: meth(X, 1e-2, 1e-3), lambda: f(d, X, 1e-2, 1e-3))
                 continue
@@ -425,6 +427,8 @@ def _second_arg(cx, f, name, op, d, g):
         rel = d * 1.005
         for tk, X, kw in (("T", T, {}), ("T_near", near, {}), ("T_near,rtol", near, {"rtol": 1e-3, "atol": 0.0}), ("T_bcast", Tb, {}),
                           ("T_rel,rtol", rel, {"rtol": 1e-2, "atol": 0.0}), ("T_rel,atol", rel, {"rtol": 0.0, "atol": 1e-2})):
+            if dt != torch.float64 and tk not in ("T", "T_bcast"):
+                continue
             cx.call(e, tk, lambda: f(X, op, **kw), None, lambda: f(X, d, **kw))
         if dt == torch.float64:
             # torch.isclose(input, other) is NOT symmetric: |input - other| <= atol + rtol * |other|.  X = d * 1.01005 is outside
